@@ -211,7 +211,7 @@ def run_shard(ctx):
     from jv import real as _real
     relation_grid(ctx, _real.Workspace())
     token_stratum(ctx, _real.Workspace(), ctx.share(16, 1500))
-    d = drive.Driver(ctx, feat, flags="all4", styles=("mixed", "runs", "dups", "regs", "multisec"), classify=classify)
+    d = drive.Driver(ctx, feat, flags="all4", styles=("mixed", "runs", "dups", "regs", "multisec", "kernel"), classify=classify)
     d.on_parser_disagreement = listing_vs_stream
     d.loop(2000, 250000)
     hexh_stratum(ctx, d, ctx.share(96, 8000))
